@@ -370,14 +370,23 @@ Definition hex2 (b : N) : bytes := [hexd (b / 16); hexd (b mod 16)].
 (** tracing-core's HexBytes Debug: [61 62 63] in brackets, two lowercase hex digits each, blank separated *)
 Definition hex_bytes (b : bytes) : bytes := 91 :: join 32 (map hex2 b) ++ [93].
 
+(** 128-bit integers in event fields, READ OFF THE SOURCE (TVGen.Gen_json.gen_serdemap_methods): SerdeMapVisitor does not
+    override record_u128 / record_i128, so they take the `Visit` default (record_debug) and are a STRING of decimal digits
+    (false).  If an override appears that hands the value to the serializer (the only body the translator accepts), serde_json
+    prints a bare number of up to 39 digits (true): the model follows, Properties/C14.v's wide-integer theorems do not. *)
+Local Open Scope string_scope.
+Definition serde_u128_native : bool := existsb (String.eqb "record_u128") gen_serdemap_methods.
+Definition serde_i128_native : bool := existsb (String.eqb "record_i128") gen_serdemap_methods.
+Local Close Scope string_scope.
+
 (** Event fields: tracing_serde::SerdeMapVisitor straight into the serializer.  It overrides bool/u64/i64/f64/str/debug;
     u128, i128, bytes (as HexBytes) and errors (Display) arrive through record_debug and become strings. *)
 Definition event_value (v : value) : json :=
   match v with
   | VU64 n => JInt (Z.of_N n)
   | VI64 z => JInt z
-  | VU128 n => JStr (dec_N n)
-  | VI128 z => JStr (dec_Z z)
+  | VU128 n => if serde_u128_native then JInt (Z.of_N n) else JStr (dec_N n)
+  | VI128 z => if serde_i128_native then JInt z else JStr (dec_Z z)
   | VBool b => JBool b
   | VStr s => JStr s
   | VF64 bits => float_json bits
@@ -390,6 +399,8 @@ Definition event_value (v : value) : json :=
 Definition span_value (v : value) : json :=
   match v with
   | VBytes b => JArr (map (fun x => JInt (Z.of_N x)) b)
+  | VU128 n => JStr (dec_N n)          (* JsonVisitor overrides neither 128-bit method: record_debug, whatever *)
+  | VI128 z => JStr (dec_Z z)          (* tracing-serde does (visit_method / gen_jsonvisitor_methods) *)
   | _ => event_value v
   end.
 
